@@ -100,8 +100,13 @@ Fixpoint accepts (p : spat) (v : value) {struct p} : bool :=
     match v with
     | VInt k => if ne then negb (N.eqb k c) else N.eqb k c
     | VCon name [VInt shown; VInt hidden] =>
-      (* an Amb operand is written eq!(&Amb(c / 4, c mod 4)): derived PartialEq compares both fields *)
-      if String.eqb name "Amb" then (if ne then negb (N.eqb (4 * shown + hidden) c) else N.eqb (4 * shown + hidden) c) else false
+      (* an Amb operand is written eq!(&Amb(c / 4, c mod 4)).  Amb's hand-written PartialEq is deliberately NOT symmetric:
+         `a == b` iff the shown fields are equal and a.hidden <= b.hidden, and `a != b` (PartialEq::ne is overridden too, and
+         is NOT the negation of eq) iff the shown fields differ; the matcher evaluates `argument == operand` for eq! and
+         `argument != operand` for ne! *)
+      if String.eqb name "Amb"
+      then (if ne then negb (N.eqb shown (c / 4)) else (N.eqb shown (c / 4) && (hidden <=? c mod 4))%bool)
+      else false
     | _ => false
     end
   end.
